@@ -96,7 +96,7 @@ def get_value(
 
         try:
             return ast.literal_eval(value)
-        except (ValueError, SyntaxError):
+        except (ValueError, SyntaxError, TypeError, MemoryError, RecursionError):
             return value
     else:
         get_function = params.get
